@@ -80,6 +80,18 @@ def viol04Step (pre post : Sim) : List String :=
       (if ratAbs (dl - (dg - dx)) ≤ tol then [] else [s!"C04/ledger| vehicle {v.id}: level changed by {Val.show (.q dl)} but gained-expended changed by {Val.show (.q (dg - dx))}"]) ++
       (if dg < -tol || dx < -tol then [s!"C04/totals-decrease| vehicle {v.id}: running totals decreased"] else [])
 
+/-- C04, last clause, per update phase: a vehicle that ends the phase with no energy left has not
+    moved in it (`move` takes a vehicle whose movement would empty it out of service *instead of*
+    moving it) -/
+def viol04Move (isEmpty : Vehicle → Bool) (pre post : Sim) : List String :=
+  post.vehicles.flatMap fun v =>
+    match pre.vehicle? v.id with
+    | none => []
+    | some p =>
+      if isEmpty v && (v.odo > p.odo || v.pos != p.pos) then
+        [s!"C04/moved-on-empty| vehicle {v.id} moved {Val.show (.q (v.odo - p.odo))} km in a step that left it without energy (level {Val.show (.q v.en.level)}); it should have gone out of service instead of moving"]
+      else []
+
 /-- C05 per phase: energy gained by vehicles = energy dispensed by stations (per type);
     money paid by vehicles for charging = money received by stations; each charge event is priced
     at the pre-state tariff -/
